@@ -189,6 +189,131 @@ def regeneration_stream(ctx, tally, drv):
         t.close()
 
 
+# The history below runs inside ONE interpreter (a build daemon, an IDE plug-in, a test harness that calls the library):
+# generate, edit definitions under the same root (a constant, an array capacity, an @extent, the size of a nested type),
+# generate again into the same and into fresh directories — through nunavut.generate_types() and through
+# nunavut.cli.main() called twice.  `once` = the same calls in a fresh interpreter that only ever saw the edited tree.
+REGEN_EDIT_INPROC = dict(REGEN_EDIT, **{
+    "vns/regen/Outer.1.0.dsdl": "vns.regen.Inner.1.0 i\nuint8[<=5] x\nvns.regen.Inner.1.0[<=3] arr\n@sealed\n",                                   # capacity 2 -> 5
+    "vns/regen/OuterD.1.0.dsdl": "uint8 K = 9\nfloat32 S = 1 / 8\nvns.regen.Outer.1.0 o\nvns.regen.InnerD.1.0 d\nvns.regen.Inner.1.0[2] two\n@extent 4096\n",  # constant, @extent
+})
+
+INPROC_SCRIPT = r"""
+import json, pathlib, sys
+mode, root, base, edit_file = sys.argv[1:5]
+import nunavut
+import nunavut.cli
+root, base = pathlib.Path(root), pathlib.Path(base)
+LANGS = [("c", {}, []), ("cpp", {"std": "c++17"}, ["--language-standard", "c++17"]), ("py", {}, [])]
+
+
+def api(tag):
+    for lang, opts, _ in LANGS:
+        nunavut.generate_types(lang, root, base / tag / ("api_" + lang), omit_serialization_support=False,
+                               allow_unregulated_fixed_port_id=True, language_options=opts, include_experimental_languages=True)
+
+
+def cli(tag):
+    for lang, _, flags in LANGS:
+        sys.argv = ["nnvg", "--experimental-languages", "--allow-unregulated-fixed-port-id", "--target-language", lang,
+                    "--outdir", str(base / tag / ("cli_" + lang))] + flags + [str(root)]
+        rc = nunavut.cli.main()
+        if rc not in (0, None):
+            raise SystemExit("nunavut.cli.main() returned %r" % (rc,))
+
+
+if mode == "history":
+    api("same"); cli("same")
+    for rel, text in json.load(open(edit_file)).items():
+        (root.parent / rel).write_text(text)
+    api("same"); cli("same"); api("fresh"); cli("fresh")
+else:
+    api("once"); cli("once")
+print("done")
+"""
+
+
+def inprocess_history_stream(ctx, tally):
+    """C05 over a history inside one process: every file generated after the edit (same directory / fresh directory,
+    library call / CLI entry point called twice) must be the file a fresh interpreter generates from the edited
+    definitions, and the constants exported by the C and Python trees must be those of the edited definitions."""
+    import json
+    import os
+    import shutil
+    import subprocess
+    from . import codec_targets as T
+    from . import common
+    base = ctx.scratch / "regen_inproc"
+    shutil.rmtree(base, ignore_errors=True)
+    src = base / "dsdl"
+    G.write_texts(src, REGEN_V1)
+    (base / "edit.json").write_text(json.dumps(REGEN_EDIT_INPROC))
+    (base / "history.py").write_text(INPROC_SCRIPT)
+    env = dict(os.environ, PYTHONPATH=str(common.REPO / "src"), PYTHONDONTWRITEBYTECODE="1")
+    extra = {"regeneration_inprocess": {"first": REGEN_V1, "edit": REGEN_EDIT_INPROC,
+                                        "history": "one interpreter: generate_types() and nunavut.cli.main() for c, cpp (c++17), py; edit; both again into the "
+                                                   "same and into fresh directories; compared with the same calls in a fresh interpreter"}}
+    for mode in ("history", "once"):
+        try:
+            p = subprocess.run([common.PY, str(base / "history.py"), mode, str(src / "vns"), str(base / "out"), str(base / "edit.json")],
+                               capture_output=True, text=True, env=env, timeout=600, cwd=str(base))
+            ok, log = p.returncode == 0 and p.stdout.strip().endswith("done"), (p.stdout + p.stderr)[-1500:]
+        except subprocess.TimeoutExpired:
+            ok, log = False, "timed out"
+        if not ok:
+            if mode == "once":
+                raise RuntimeError("in-process history stream: generation in a fresh interpreter failed: " + log)
+            tally.fail({"kind": "regen-inprocess:generation-failed", "lang": "-", "sig": "-"},
+                       "generating twice in one process (definitions edited in between) fails although a fresh process generates the edited tree",
+                       lambda log=log: dict(extra, log=log))
+            return
+    out = base / "out"
+    for api in ("api", "cli"):
+        for lang in ("c", "cpp", "py"):
+            ref = out / "once" / f"{api}_{lang}"
+            for where in ("same", "fresh"):
+                got = out / where / f"{api}_{lang}"
+                ctx.case(("regen-inprocess", api, lang, where), True)
+                for f in sorted(ref.rglob("*")):
+                    if not f.is_file():
+                        continue
+                    g = got / f.relative_to(ref)
+                    ctx.count("regen-inprocess:files-compared")
+                    if not g.exists() or g.read_bytes() != f.read_bytes():
+                        entry = "nunavut.generate_types()" if api == "api" else "nunavut.cli.main()"
+                        tally.fail({"kind": "regen-inprocess:stale-file", "lang": lang, "sig": api},
+                                   f"{lang}: {f.relative_to(ref)} generated by a second {entry} in the same process after the definitions were edited "
+                                   f"({'same' if where == 'same' else 'fresh'} output directory) is not what a fresh process generates from the edited definitions",
+                                   lambda lang=lang, f=f, ref=ref, where=where, entry=entry: dict(extra, target=lang, entry_point=entry, directory=where,
+                                                                                               file=str(f.relative_to(ref))))
+    # the property's own predicate on the history's output: exported constants against the edited definitions
+    ns2 = G.load(src / "vns")
+    numpy_dir = T.ensure_numpy()
+    live = []
+    for api in ("api", "cli"):
+        c = T.CTarget(ns2, base / "probe" / f"{api}_c", "any", False, tag=f"c/in-process-history/{api}")
+        c.outdir.mkdir(parents=True, exist_ok=True)
+        shutil.copytree(out / "fresh" / f"{api}_c", c.outdir / "gen", dirs_exist_ok=True)
+        (c.outdir / "shim.c").write_text(T.c_shim_source(ns2))
+        py = T.PyTarget(ns2, base / "probe" / f"{api}_py", numpy_dir)
+        py.name = f"py/in-process-history/{api}"
+        py.outdir.mkdir(parents=True, exist_ok=True)
+        shutil.copytree(out / "same" / f"{api}_py", py.outdir / "gen", dirs_exist_ok=True)
+        (py.outdir / "types.json").write_text(json.dumps([T.py_type_desc(gt) for gt in ns2.types]))
+        if c.compile():
+            live.append(c)
+        else:
+            tally.fail({"kind": "regen-inprocess:build", "lang": "c", "sig": api},
+                       "the C tree generated by the second in-process generation does not compile against the edited definitions",
+                       lambda c=c: dict(extra, target=c.name, log=c.build_log[-1500:]))
+        live.append(py)
+    try:
+        check_exports(ctx, ns2, live, pydsdl_bounds(ns2), make_bad(tally, ns2, "regen-inprocess:", extra))
+    finally:
+        for t in live:
+            t.close()
+
+
 def check_exports(ctx, ns, targets, model_bounds, bad):
     """Every constant the generated code of `targets` exports, against the PyDSDL model of `ns`."""
     for t in targets:
@@ -280,6 +405,7 @@ def run(ctx):
 
     # ---- regeneration over an existing output tree -------------------------------------------------------------------
     regeneration_stream(ctx, tally, drv)
+    inprocess_history_stream(ctx, tally)
 
     # ---- serialization into buffers of every size ------------------------------------------------------------------
     rng = ctx.rng
@@ -313,6 +439,7 @@ def run(ctx):
                 + [G.gen_value(rng, gt.expr, oob=False) for _ in range(nvals)]
             preqs += [E.Req(gt, "ser", v) for v in vals]
         E.run_requests(ctx, sess, drv, "ser-own-buffer", preqs, tally, targets=py)
+        E.record_spellings(ctx, sess)
     ctx.sample({"type": reqs[-1].gt.tstr[:200], "request": reqs[-1].target_line()[:200]})
 
 
@@ -320,6 +447,13 @@ def replay(ctx, path):
     import json
     r = json.loads(open(path).read())
     rp = r.get("replay") or {}
+    if "regeneration_inprocess" in rp:
+        tally = E.Tally(ctx)
+        inprocess_history_stream(ctx, tally)
+        for f in ctx.failures:
+            print(json.dumps({"key": f["key"], "what": f["what"]}))
+        ctx.cleanup()
+        return 1 if ctx.failures else 0
     if "regeneration" in rp or rp.get("origin") == "regeneration":
         # the failing input is a history (generate, edit a nested type, regenerate in place): run it again
         tally = E.Tally(ctx)
